@@ -47,6 +47,9 @@ fn check_and_adjust_buckets(mut buckets: Vec<f64>) -> Result<Vec<f64>> {
     }
 
     for (i, upper_bound) in buckets.iter().enumerate() {
+        if upper_bound.is_nan() {
+            return Err(Error::Msg("histogram buckets must not be NaN".to_owned()));
+        }
         if i < (buckets.len() - 1) && *upper_bound >= buckets[i + 1] {
             return Err(Error::Msg(format!(
                 "histogram buckets must be in increasing \
